@@ -20,10 +20,12 @@ import (
 	"fmt"
 	"sync"
 	"sync/atomic"
+	"unsafe"
 
 	"github.com/bytedance/sonic/internal/native/types"
 	"github.com/bytedance/sonic/internal/rt"
 	"github.com/bytedance/sonic/internal/utils"
+	"github.com/bytedance/sonic/internal/vhook"
 	"github.com/bytedance/sonic/unquote"
 )
 
@@ -756,6 +758,7 @@ func (self *Node) loadt() types.ValueType {
 func (self *Node) lock() bool {
 	if m := self.m; m != nil {
 		m.Lock()
+		vhook.Emit("ast.lock", uintptr(unsafe.Pointer(self)))
 		return true
 	}
 	return false
@@ -763,6 +766,7 @@ func (self *Node) lock() bool {
 
 func (self *Node) unlock() {
 	if m := self.m; m != nil {
+		vhook.Emit("ast.unlock", uintptr(unsafe.Pointer(self)))
 		m.Unlock()
 	}
 }
@@ -770,6 +774,7 @@ func (self *Node) unlock() {
 func (self *Node) rlock() bool {
 	if m := self.m; m != nil {
 		m.RLock()
+		vhook.Emit("ast.rlock", uintptr(unsafe.Pointer(self)))
 		return true
 	}
 	return false
@@ -777,6 +782,7 @@ func (self *Node) rlock() bool {
 
 func (self *Node) runlock() {
 	if m := self.m; m != nil {
+		vhook.Emit("ast.runlock", uintptr(unsafe.Pointer(self)))
 		m.RUnlock()
 	}
 }
